@@ -164,8 +164,8 @@ func (g *Gen) kw(id token.ID, word string) *token.Token {
 // type name in either language family, so that no check depends on
 // per-version reserved-word sets.
 var (
-	varNames   = []string{"a", "b", "c", "i", "k", "v", "x", "foo", "barBaz", "_tmp", "x1", "Obj", "\xc3\xbcber", "this", "GLOBALS", "value_2"}
-	plainNames = []string{"Foo", "Bar", "baz", "qux", "A", "B", "T1", "_x", "camelCase", "snake_case", "\xc3\x9cn\xc3\xaf", "x1", "Zed", "handler", "Q"}
+	varNames   = []string{"a", "b", "c", "i", "k", "v", "x", "foo", "barBaz", "_tmp", "x1", "Obj", "\xc3\xbcber", "this", "GLOBALS", "value_2", "\xd7\xa9\xd7\x9c", "\x80x", "\xff"}
+	plainNames = []string{"Foo", "Bar", "baz", "qux", "A", "B", "T1", "_x", "camelCase", "snake_case", "\xc3\x9cn\xc3\xaf", "x1", "Zed", "handler", "Q", "\xd7\xa9\xd7\x9c\xd7\x95\xd7\x9d", "\x80abc", "\xbf_", "\xf7a", "\xffz", "a\xd7"}
 	labelNames = []string{"EOT", "EOD", "HTML", "_L1", "X", "Sql"}
 )
 
